@@ -75,10 +75,6 @@ func (i *EncryptedSSHIdentity) Recipient() age.Recipient {
 // any of the stanzas match the public key, it will request the passphrase. The
 // decrypted private key will be cached after the first successful invocation.
 func (i *EncryptedSSHIdentity) Unwrap(stanzas []*age.Stanza) (fileKey []byte, err error) {
-	if i.decrypted != nil {
-		return i.decrypted.Unwrap(stanzas)
-	}
-
 	var match bool
 	for _, s := range stanzas {
 		if s.Type != i.pubKey.Type() {
@@ -95,6 +91,12 @@ func (i *EncryptedSSHIdentity) Unwrap(stanzas []*age.Stanza) (fileKey []byte, er
 	}
 	if !match {
 		return nil, age.ErrIncorrectIdentity
+	}
+
+	// A file that is not addressed to this identity gets the same answer
+	// whether or not the key was decrypted by an earlier call.
+	if i.decrypted != nil {
+		return i.decrypted.Unwrap(stanzas)
 	}
 
 	passphrase, err := i.passphrase()
